@@ -248,7 +248,7 @@ func (c *Collector) Finish() int {
 	cov["violation_signatures"] = nviol
 	evd := map[string]interface{}{
 		"property_id": c.Property, "tier": c.Tier, "seed": Seed(), "level": c.Level,
-		"coverage": cov, "assumptions": c.Assume, "wall_s": time.Since(c.start).Seconds(), "violations": nviol,
+		"coverage": cov, "assumptions": append([]string{}, c.Assume...), "wall_s": time.Since(c.start).Seconds(), "violations": nviol,
 	}
 	b, _ := json.MarshalIndent(evd, "", " ")
 	os.MkdirAll(filepath.Join(OutDir, "evidence"), 0o755)
